@@ -421,7 +421,10 @@ def eval_robj(ctx: Ctx, c: dict):
     opt_ok = tsig_ok = False
     if m.opt is not None:
         try:
-            r.add_opt(m.opt, pad, osz, tsz)
+            if c.get("kw"):
+                r.add_opt(tsig_size=tsz, opt_size=osz, pad=pad, opt=m.opt)       # the same call spelled with keywords
+            else:
+                r.add_opt(m.opt, pad, osz, tsz)
             tr.append(f"opt:ok:{r.output.tell()}")
             opt_ok = True
         except dns.exception.TooBig:
@@ -432,10 +435,14 @@ def eval_robj(ctx: Ctx, c: dict):
         t = c["tsig"]
         kn, alg = dns.name.Name(L(t["name"])), dns.name.Name(L(t["alg"]))
         try:
+            secret = key.secret if c.get("kw") else key          # a Key object or the bare secret octets + algorithm
             if multi:
-                r.add_multi_tsig(None, kn, key, t["fudge"], t["orig_id"], t["error"], bytes.fromhex(t["other"]), b"", alg)
+                r.add_multi_tsig(None, kn, secret, t["fudge"], t["orig_id"], t["error"], bytes.fromhex(t["other"]), b"", alg)
+            elif c.get("kw"):
+                r.add_tsig(algorithm=alg, request_mac=b"", other_data=bytes.fromhex(t["other"]), tsig_error=t["error"], id=t["orig_id"],
+                           fudge=t["fudge"], secret=secret, keyname=kn)
             else:
-                r.add_tsig(kn, key, t["fudge"], t["orig_id"], t["error"], bytes.fromhex(t["other"]), b"", alg)
+                r.add_tsig(kn, secret, t["fudge"], t["orig_id"], t["error"], bytes.fromhex(t["other"]), b"", alg)
             tr.append(f"tsig:ok:{r.output.tell()}")
             tsig_ok = True
         except dns.exception.TooBig:
@@ -443,6 +450,25 @@ def eval_robj(ctx: Ctx, c: dict):
     if hm != 0:
         r.write_header()
     w = r.get_wire()
+    if r.get_wire() != w:
+        fail(ctx, "C08/renderer/get_wire-not-stable", "get_wire() called twice gives different octets", c)
+    no_boom = not any("boom" in x for s_ in c["sections"] for x in s_)
+    if (no_boom and ms == 65535 and not multi and xf == 0 and all(x.startswith(("ok", "opt:ok", "tsig:ok")) for x in tr)
+            and osz == opt_size_of(c, pad) and tsz == tsig_size_of(c) and (pad == 0 or m.opt is not None)
+            and (c["tsig"] is None or (pad != 0 and m.opt is not None))):   # without padding the object route compresses the TSIG owner, to_wire never does
+        # the second call site: Message.to_wire drives the same Renderer calls and must produce the same octets
+        m.pad = pad
+        if c["tsig"] is not None:
+            t = c["tsig"]
+            m.use_tsig(key, fudge=t["fudge"], original_id=t["orig_id"], tsig_error=t["error"], other_data=bytes.fromhex(t["other"]))
+        try:
+            wt = m.to_wire(max_size=65535, want_shuffle=False)
+        except Exception as e:  # noqa: BLE001
+            wt = type(e).__name__
+        ctx.count("robj.vs-to_wire")
+        if wt != w:
+            fail(ctx, "C08/renderer/differs-from-to_wire", f"the Renderer calls give {len(w)} octets, Message.to_wire of the same message "
+                 f"{wt if isinstance(wt, str) else str(len(wt)) + ' octets'}", c)
     wm = w
     if tsig_ok:
         sp = mac_span(c, w)
@@ -493,6 +519,23 @@ def eval_robj(ctx: Ctx, c: dict):
                 fail(ctx, "C08/renderer/records-differ", f"section {sx}: {d} of {a.name}", c)
     for clause, text in check_walk(dict(c, sections=kept), w):
         fail(ctx, f"C08/renderer/{clause}", text, c)
+
+
+def eval_padhuge(ctx: Ctx, c: dict):
+    """a block size for which the PADDING option itself cannot be encoded (its data would exceed 65535 octets)"""
+    m = dns.message.make_query("www.example.", "A", id=1)
+    m.use_edns(0, pad=c["pad"])
+    for ms in (0, 65535):
+        try:
+            w = m.to_wire(max_size=ms)
+            if len(w) % c["pad"] or len(w) > 65535:
+                fail(ctx, "C08/to_wire/padding-multiple/other", f"pad={c['pad']}: {len(w)} octets", c)
+        except (dns.exception.TooBig, dns.exception.FormError, ValueError):
+            pass
+        except Exception as e:  # noqa: BLE001
+            fail(ctx, f"C08/to_wire/raises/{type(e).__name__}/padding-option-over-65535",
+                 f"use_edns(pad={c['pad']}) then to_wire(max_size={ms}) raised {type(e).__name__} ({e}) instead of TooBig", c)
+            return
 
 
 def eval_reemit(ctx: Ctx, c: dict):
@@ -705,6 +748,8 @@ def eval_case(ctx: Ctx, c: dict):
         eval_robj(ctx, c)
     elif k == "reemit":
         eval_reemit(ctx, c)
+    elif k == "padhuge":
+        eval_padhuge(ctx, c)
     else:
         raise ValueError(k)
 
@@ -882,6 +927,7 @@ def gen_robj(rng):
     if not use_origin and rng.chance(1, 40):
         # an exception other than TooBig in the middle of a record: a relative name inside the RDATA and no origin
         sections[rng.choice([1, 2, 3])].insert(0, rr(nm(b"ok"), 2, [{"k": "n", "n": nm(b"ns1")}, {"k": "n", "n": hexl([b"relative-target"])}][rng.below(2):]))
+    c["kw"] = rng.chance(1, 3)
     c["xf"] = ((rng.below(8) & (3 if xf_no_ooo else 7)) if rng.chance(1, 2) else 0) | (8 | (rng.below(3) << 4) if rng.chance(1, 8) else 0)
     c.update(pad=pad, opt_size=osz, tsig_size=tsz, hdr=rng.below(3) if c["tsig"] is None else rng.choice([0, 2]),  # the header must be written before signing
              multi=rng.chance(1, 3), reserve=rng.chance(1, 2),
@@ -962,7 +1008,7 @@ def generate(ctx: Ctx, scale: int, rng):
             ctx.count("gen.rejected")
             continue
         c["kind"] = "pads"
-        c["pads"] = PADS
+        c["pads"] = PADS if i % 4 else PADS + [255, 256, 512, 1000, 4096, 65535, 65536]
         m, _ = mk_message(c)
         _, w = render(m, 65535)
         c["max_size"] = rng.choice([65535, 65535, 512, len(w) + rng.choice([0, 1, 5, 40, 130])])
